@@ -271,6 +271,37 @@ def _statuswrite_rule(chk, prog):
         raise AnalysisBroken("only %d status writes found" % n)
 
 
+def _saverestore_rule(chk, prog):
+    rule = "C05-SAVERESTORE"
+    chk.rule(rule, "every VM field janet_try_init saves into the JanetTryState is restored from it by janet_restore")
+    ti = prog.need_func("janet_try_init", "vm.c")
+    rs = prog.need_func("janet_restore", "vm.c")
+    chk.analysed(ti)
+    chk.analysed(rs)
+    saved = {}
+    for n in ti.nodes:
+        if n.k == "asg" and n.op == "=" and n.kids[0].k == "mem" and n.kids[0].rec == "JanetTryState":
+            for x in n.kids[1].walk():
+                if x.k == "mem" and x.rec == "JanetVM":
+                    saved[n.kids[0].field] = x.field
+    restored = {}
+    for n in rs.nodes:
+        if n.k == "asg" and n.op == "=" and n.kids[0].k == "mem" and n.kids[0].rec == "JanetVM":
+            r = strip_casts(n.kids[1])
+            if r.k == "mem" and r.rec == "JanetTryState":
+                restored[r.field] = n.kids[0].field
+    if len(saved) < 5:
+        raise AnalysisBroken("janet_try_init: only %d saved fields found" % len(saved))
+    for f, g in sorted(saved.items()):
+        chk.instance(rule)
+        if restored.get(f) == g:
+            chk.ok(rule, "janet_vm.%s saved in state->%s and restored" % (g, f))
+        else:
+            chk.violation(rule, "vm.c", "janet_restore", g, rs.loc,
+                          "janet_try_init saves janet_vm.%s in state->%s but janet_restore does not put it back: after a nested "
+                          "resume returns, the outer context runs with the inner value" % (g, f))
+
+
 def run(chk):
     prog = Program.load("default", units=["vm.c", "fiber.c", "value.c", "marsh.c", "ev.c", "util.c", "capi.c", "corelib.c"])
     _terminal_rule(chk, prog)
@@ -278,3 +309,4 @@ def run(chk):
     _mask_rule(chk, prog)
     _layout_rule(chk, prog)
     _statuswrite_rule(chk, prog)
+    _saverestore_rule(chk, prog)
